@@ -32,7 +32,10 @@ View == <<svars, hvars, stored, upd, IF GenMode /\ GenFail THEN Len(sched) ELSE 
 ViewEv == <<View, ev>>
 
 Users == Addr
-MsgOf(kind) == IF kind = "none" THEN <<>> ELSE <<[k |-> "msg", tag |-> kind, a |-> "", b |-> "", amt |-> 0, harmless |-> kind \in {"sink", "sink2", "bank"}]>>
+\* ("drain": the members spend one deposit's worth of the deposit denomination out of the multisig's pool)
+MsgOf(kind) == IF kind = "none" THEN <<>>
+               ELSE <<[k |-> "msg", tag |-> kind, a |-> "", b |-> "", amt |-> IF kind = "drain" THEN Dep.amt ELSE 0,
+                       harmless |-> kind \in {"sink", "sink2", "bank"}]>>
 FailingKind(kind) == kind \in {"bankbig", "reexec", "reclose", "revote"}   \* dispatch of these always fails
 
 \* what the queries report for a stored proposal (Proposal::current_status)
@@ -126,9 +129,11 @@ DoExecute(by, id) ==
      /\ props' = ps /\ stored' = [stored EXCEPT ![id] = "executed"]
      /\ rejEarly' = RejEarlyNext(ps, now, FALSE)
   /\ execd' = [execd EXCEPT ![id] = @ + 1]
+  \* the messages are dispatched first, then the refund: the bank refuses what the multisig does not hold
+  /\ bal["ms"] >= DrainOf(props[id].msgs) + (IF props[id].dep.kind = "none" THEN 0 ELSE props[id].dep.amt)
   /\ IF props[id].dep.kind = "none"
-     THEN bal' = bal /\ out' = props[id].msgs /\ held' = held
-     ELSE /\ bal' = Move(bal, "ms", props[id].proposer, props[id].dep.amt)
+     THEN bal' = Spend(bal, DrainOf(props[id].msgs)) /\ out' = props[id].msgs /\ held' = held
+     ELSE /\ bal' = Spend(Move(bal, "ms", props[id].proposer, props[id].dep.amt), DrainOf(props[id].msgs))
           /\ out' = <<RefundMsg(props[id].proposer, props[id].dep.amt)>> \o props[id].msgs
           /\ held' = [held EXCEPT ![id] = 0]
   /\ UNCHANGED <<voters, gtotal, startVoters, dirty, now, snap, closedH, sameBlk, upd>>
@@ -142,6 +147,7 @@ DoClose(by, id) ==
      /\ props' = ps /\ stored' = [stored EXCEPT ![id] = "rejected"]
      /\ rejEarly' = RejEarlyNext(ps, now, FALSE)
   /\ closedH' = [closedH EXCEPT ![id] = TRUE]
+  /\ (props[id].dep.kind # "none" /\ props[id].dep.refund) => bal["ms"] >= props[id].dep.amt
   /\ IF props[id].dep.kind # "none" /\ props[id].dep.refund
      THEN /\ bal' = Move(bal, "ms", props[id].proposer, props[id].dep.amt)
           /\ out' = <<RefundMsg(props[id].proposer, props[id].dep.amt)>>
@@ -202,7 +208,7 @@ A_C05 == [][C05_DispatchExact /\ C05_ExecutorRule /\ C05_FailedKeeps /\ C05_Stat
 A_C06 == [][C06_OneBallot /\ C06_VoteWindow /\ C06_BallotWeight /\ C06_ProposerBallot /\ C06_LaterChangesIrrelevant /\ C06_FixedTableStatic]_vars
 A_C15 == [][C15_ProposeTakes /\ C15_RefundOnExecute /\ C15_RefundOnClose /\ C15_NoOtherMoves]_vars
 \* must-succeed, stated on the reference machine with ENABLED (failing calls are not MC steps)
-C15_RecoverableMC == \A id \in Ids : Recoverable(id, now) => (ENABLED DoClose("a1", id)) \/ KF3q(id) \/ KF6(id)
+C15_RecoverableMC == \A id \in Ids : Recoverable(id, now) /\ CanRefund(props[id]) => (ENABLED DoClose("a1", id)) \/ KF3q(id) \/ KF6(id)
 
 \* ------------------------------------------------------------------ constants for the .cfg files
 ThrCount2 == [kind |-> "count", weight |-> 2, p |-> 0, q |-> 0]
